@@ -22,7 +22,7 @@ partial def readAll (h : IO.FS.Stream) (acc : Array String) : IO (Array String) 
 
 /-- `run` mode: stdin holds one or more programs separated by `=== <name>` lines; for each the model's
     trace is printed after a line `=== <name>` -/
-def runPrograms (h : IO.FS.Stream) : IO Unit := do
+def runPrograms (h : IO.FS.Stream) (run : List String → List String) : IO Unit := do
   let lines ← readAll h #[]
   let mut cur : List String := []
   let mut name : Option String := none
@@ -31,7 +31,7 @@ def runPrograms (h : IO.FS.Stream) : IO Unit := do
     match name with
     | some n => IO.println n
     | none => pure ()
-    for l in Sigc.Model.runProgram cur.reverse do
+    for l in run cur.reverse do
       IO.println l
   for l in lines do
     if l.startsWith "===" then
@@ -51,7 +51,11 @@ def main (args : List String) : IO UInt32 := do
   | ["adapt"] => mapLines stdin Sigc.Adapt.processLine; return 0
   | ["visit"] => mapLines stdin Sigc.Visit.processLine; return 0
   | ["types"] => mapLines stdin Sigc.Types.processLine; return 0
-  | ["run"]   => runPrograms stdin; return 0
+  | ["run"]   => runPrograms stdin Sigc.Model.runProgram; return 0
+  | ["spec"]  => runPrograms stdin (Sigc.Spec.runProgram false false); return 0
+  | ["spec-known"] => runPrograms stdin (Sigc.Spec.runProgram true true); return 0
+  | ["spec-k1"] => runPrograms stdin (Sigc.Spec.runProgram true false); return 0
+  | ["spec-k2"] => runPrograms stdin (Sigc.Spec.runProgram false true); return 0
   | _ =>
     IO.eprintln "usage: sigc_model trk|adapt|visit|types|run  < cases"
     return 2
